@@ -2,6 +2,7 @@ import NetVerif.Model.Qpack
 import NetVerif.Model.QpackHuffTable
 import NetVerif.Gen.C33
 import NetVerif.Proofs.Lemmas.QpackRT
+import NetVerif.Proofs.Lemmas.H3Safe
 /-!
 C33 — QPACK field sections round-trip and the decoder rejects bad input safely.
 
@@ -141,7 +142,7 @@ theorem rejects_bad_static_index (s s1 : St) (b idx : Nat) (hb : b ≥ 128)
 theorem rejects_bad_huffman (H : Huff) (s s1 s3 : St) (first p size : Nat) (data : List Nat)
     (h1 : readPrefixedIntWithByte s first p = .ok size s1)
     (hlim : ¬ (s1.lim ≥ 0 ∧ (size : Int) > s1.lim))
-    (h3 : readFull { s1 with allocs := (size, s1.data.length) :: s1.allocs } size = .ok data s3)
+    (h3 : readFull { s1 with allocs := (2 * min size s1.data.length + 512, s1.data.length) :: s1.allocs } size = .ok data s3)
     (hbit : first / 2 ^ p % 2 = 1) (hbad : H.dec data = none) :
     readPrefixedStringWithByte H s first p = .err (.plain cQpackDecompressionFailed) s3 := by
   unfold readPrefixedStringWithByte
@@ -247,7 +248,12 @@ theorem unassigned_first_byte_empty_name (H : Huff) (tbl : List (List Nat × Lis
   have h4 : ¬ b ≥ 8 := by omega
   simp [h1, h2, h3, h4]
 
-/-! ### Peer-controlled allocations (candidate finding: the full statement is FALSE today) -/
+/-! ### Peer-controlled allocations
+
+Before the repair (`fix: internal/http3: do not allocate a peer-declared QPACK string length up front`)
+`readPrefixedStringWithByte` did `make([]byte, size)` and the statement below was FALSE
+(witness: 2^42 bytes allocated for a 9-byte section). The repaired code grows the buffer as
+bytes arrive; the model records the capacity bound `2 * (bytes obtained) + 512`. -/
 
 def finalSt {α : Type} : Out α → Option St
   | .ok _ s => some s
@@ -255,61 +261,47 @@ def finalSt {α : Type} : Out α → Option St
   | .panic => none
   | .hang => none
 
-/-- Every recorded allocation `(size, bytes of the stream not yet consumed)` is covered by bytes
-that were actually received. -/
-def AllocsBounded (st : St) : Prop := ∀ a ∈ st.allocs, a.1 ≤ a.2
-
-/-- "Allocations are bounded by the bytes actually received", for every decode inside a frame. -/
+open NetVerif.Proofs.H3Safe in
+/-- "Allocations are bounded by the bytes actually received", for every decode on a live stream,
+whatever the bytes, the declared frame length and the way the decode ends. -/
 def AllocStatement : Prop :=
-  ∀ (H : Huff) (tbl : List (List Nat × List Nat)) (s : St), s.dead = false → s.allocs = [] → s.lim ≥ 0 →
+  ∀ (H : Huff) (tbl : List (List Nat × List Nat)) (s : St), s.dead = false → AllocsBounded s →
+    (decode H tbl s).final ≠ .panic ∧
     ∀ st', finalSt (decode H tbl s).final = some st' → AllocsBounded st'
+
+open NetVerif.Proofs.H3Safe in
+theorem alloc_holds : AllocStatement := by
+  intro H tbl s hd hb
+  have h := safe_decode H tbl s ⟨hd, hb⟩
+  revert h
+  cases (decode H tbl s).final with
+  | ok a s' => intro h; exact ⟨by simp, by intro st' hs; simp [finalSt] at hs; subst hs; exact h.2⟩
+  | err e s' => intro h; exact ⟨by simp, by intro st' hs; simp [finalSt] at hs; subst hs; exact h.2⟩
+  | panic => intro h; exact False.elim h
+  | hang => intro _; exact ⟨by simp, by intro st' hs; simp [finalSt] at hs⟩
 
 def Hid : Huff := { encLen := fun s => s.length, enc := fun s => s, dec := fun s => some s }
 
-/-- Small witness: a 4-byte section in a frame of declared length 100 whose literal name declares
-50 bytes: 50 bytes are allocated with 0 bytes left on the stream. -/
-def allocWitness : St := { St.fresh [0, 0, 39, 43] with lim := 100 }
-
-/-- The witness of DESIGN §10: literal of length 2^42 in a frame of declared length 2^62 - 1. -/
+/-- The old witness of DESIGN §10 (literal of length 2^42 in a frame of declared length 2^62 - 1). -/
 def allocWitnessBig : St :=
   { St.fresh [0, 0, 0x27, 0xf9, 0xff, 0xff, 0xff, 0xff, 0x7f] with lim := 4611686018427387903 }
 
-theorem allocWitness_run : (decode Hid [] allocWitness).final =
+/-- On the repaired model the old witness is rejected after a 512-byte allocation. -/
+example : (decode Hid [] allocWitnessBig).final =
     .err (.plain cQpackDecompressionFailed)
-      { data := [], primed := true, dead := false, lim := 96, allocs := [(50, 0)] } := by rfl
+      { data := [], primed := true, dead := false, lim := 4611686018427387894, allocs := [(512, 0)] } := by rfl
 
-theorem allocWitnessBig_run : (decode Hid [] allocWitnessBig).final =
-    .err (.plain cQpackDecompressionFailed)
-      { data := [], primed := true, dead := false, lim := 4611686018427387894,
-        allocs := [(4398046511104, 0)] } := by rfl
+example : NetVerif.Proofs.H3Safe.AllocsBounded
+    { data := [], primed := true, dead := false, lim := 4611686018427387894, allocs := [(512, 0)] } := by
+  intro a ha; simp at ha; subst ha; simp
 
-/-- The unchanged code violates the allocation statement. -/
-theorem alloc_full_false : ¬ AllocStatement := by
-  intro h
-  have := h Hid [] allocWitness rfl rfl (by decide) _ (by rw [allocWitness_run]; rfl)
-  have := this (50, 0) (by simp)
-  simp at this
-
-/-- Excluded region of the partial statement, as a decidable predicate on the state at the
-moment a string literal's length has been read: the declared length exceeds the bytes left. -/
-def DeclaredBeyondReceived (size : Nat) (s1 : St) : Bool := decide (size > s1.data.length)
-
-/-- What the code does guarantee (`_partial`): a declared literal length beyond the remaining
-declared frame length is rejected before anything is allocated. So every allocation is bounded by
-the *declared* frame length — which the peer chooses freely up to 2^62 - 1 — not by received bytes. -/
-theorem alloc_guard_partial (H : Huff) (s s1 : St) (first p size : Nat)
+/-- The frame-limit guard is still there: a declared literal length beyond the remaining declared
+frame length is rejected before anything is read. -/
+theorem alloc_guard (H : Huff) (s s1 : St) (first p size : Nat)
     (h1 : readPrefixedIntWithByte s first p = .ok size s1) (hl : s1.lim ≥ 0) (hbig : (size : Int) > s1.lim) :
     readPrefixedStringWithByte H s first p = .err (.plain cQpackDecompressionFailed) s1 := by
   unfold readPrefixedStringWithByte
   rw [h1]
   simp [hl, hbig, qpackErr]
-
-/-- The statement that is expected to hold outside the finding's region (frames that have been
-received completely: `lim ≤ bytes present`). Stated, NOT proved here (needs the invariant
-`0 ≤ lim ≤ data.length` carried through every primitive). -/
-def AllocCompleteFrameStatement : Prop :=
-  ∀ (H : Huff) (tbl : List (List Nat × List Nat)) (s : St), s.dead = false → s.allocs = [] → s.lim ≥ 0 →
-    s.lim ≤ s.data.length →
-    ∀ st', finalSt (decode H tbl s).final = some st' → AllocsBounded st'
 
 end NetVerif.Proofs.C33
